@@ -44,3 +44,13 @@ CHECKS["C17"] = dict(
  text="Lru.tla is a PlusCal transcription of lru.go with one label per lock operation / observable step. TLC explores every interleaving of 2 readers x 2 Gets + resizer (quick, 1.4e5 states; thorough adds 3 readers) for deadlock, structure, bound, returned data and lock discipline, and termination under weak fairness. Binding: TLC -simulate emits complete interleavings which are FORCED on real goroutines through gates compiled into lru.go (tag verif): one release = one spec step, and the real cache state (keys, LRU order, which blocks hold data, maxBlocks) is compared with the spec state after every step; free-running stress runs on a real squashfs image (cache sizes 0/1 block/few/default, concurrent SetCacheSize, ReadAt yields, GOMAXPROCS 1..16) compare every goroutine's bytes with the known content in a -race binary.",
  note="Hooks: add-only gate calls in filesystem/squashfs/lru.go, no-op without the verif tag. Un-gated accesses (GetCacheSize reads maxBlocks unlocked) are outside the model; the race detector is auxiliary. A divergence between code and spec that does not break the property is MODEL-DRIFT (exit 2).",
  technique="PlusCal spec + TLC interleaving exploration + TLC-generated schedules forced on real goroutines via gates + race-detector stress")
+CHECKS["C04"] = dict(
+ level="model_checking",
+ text="ExtTree.tla models an ext4 volume as a plain tree of files, directories and symlinks with attributes (accept / refuse branch per call, frame condition on every other path and every other attribute). TLC generates every call sequence of depth 2 (quick) / 3 (thorough) over the boundary alphabet plus -simulate walks; scripted behaviours add many-extent files, directory churn past one block and multi-block files written in pieces. ExtTree_Trace validates the traces recorded on real ext4 volumes (1 KiB / 2 KiB / 4 KiB blocks, with/without journal and metadata checksums, start 0 / 1 MiB / > 4 GiB): live walk, walk after re-opening from bytes, re-read through the writing handle and Stat attributes after every call; a read error on a file the library wrote is rejected.",
+ note="Trusted: TLC, memdev, the unit->byte map and tag projection. No Rename/Truncate (not in the statement; Rename is not implemented).",
+ technique="TLA+ tree spec + TLC behaviour generation (BFS + simulate) + trace validation of real volumes")
+CHECKS["C05"] = dict(
+ level="model_checking",
+ text="ExtFsck.tla enumerates the Create parameter space (block size, journal, metadata_csum, 64bit/flex_bg/sparse_super2/blocks per group/inode ratio+count/dir_index/huge_file/resize inode, size class) as tuples; for each tuple TLC-generated ExtTree call sequences plus scripted behaviours are executed and the image is handed to e2fsck -f -n after Create and after EVERY call (accepted or refused), and debugfs extracts every file at the end; ExtFsck_Trace judges each event (exit status 0, extracted bytes equal). The first offending call of a behaviour is named.",
+ note="Reference oracle: e2fsprogs 1.47.0 (shares nothing with the library). Quick: tuples within 1 deviation of the base; thorough: 2 deviations and more sequences. One recorded finding (BlocksPerGroup=2048 resize inode).",
+ technique="TLA+-enumerated parameter space and call sequences + reference checker (e2fsck/debugfs) after every call + trace validation")
